@@ -382,6 +382,8 @@ static void apply_damage(file_t *F,const char *kind,long a,long b){
   if(F->npages==0) return;
   if(a<0) a=0; if(a>=F->npages) a=F->npages-1;
   page_t P=F->pages[a];
+  if(!F->pages0){ F->pages0=malloc(F->npages*sizeof(page_t)); memcpy(F->pages0,F->pages,F->npages*sizeof(page_t)); F->npages0=F->npages; }
+  if(F->ndmg<8){ snprintf(F->dmgs[F->ndmg].kind,12,"%s",kind); F->dmgs[F->ndmg].a=a; F->dmgs[F->ndmg].b=b; } F->ndmg++;
   if(!strcmp(kind,"garbage")){ unsigned char *g=malloc(b>0?b:1); rng_t r; r.s=a*7919+b; for(long i=0;i<b;i++) g[i]=rng_u32(&r); splice(F,P.off,0,g,b); free(g); }
   else if(!strcmp(kind,"oggs")){ unsigned char g[8]="OggS\0\2\0"; splice(F,P.off,0,g,7); }
   else if(!strcmp(kind,"drop")){ splice(F,P.off,P.len,NULL,0); }
@@ -464,12 +466,17 @@ static int run_scenario(int from,int to,const char *name,int budget){
         /* the page table as libogg sees it: offset, length, link (-1: a stream that is not one of the Vorbis links), granule position, continued flag */
         ev_begin("Pages"); ev_i("f",F->id); ev_i("len",F->len); ev_arr_begin("pg");
         { int cur=-1; long k=0,last=-1;     /* per link: running audio packet index and the previous block size, for the samples the packets of a page account for */
-        for(int j=0;j<F->npages&&j<4000;j++){ page_t *q=&F->pages[j]; char t[200]; long dur=0;
+        page_t *PT=F->pages0?F->pages0:F->pages; int NP=F->pages0?F->npages0:F->npages;
+        for(int j=0;j<NP&&j<4000;j++){ page_t *q=&PT[j]; char t[200]; long dur=0; char bl[2200]; size_t bo=0; bl[0]=0;
           if(q->link>=0){ if(q->link!=cur){ cur=q->link; k=0; last=-1; }
-            if(q->off>=F->dataoff[cur]){ link_t *L=F->links[cur]; for(int n=0;n<q->npk&&3+k<L->npk;n++,k++){ long b=L->pk[3+k].W?L->bs1:L->bs0; if(last!=-1) dur+=(last+b)>>2; last=b; } } }
-          snprintf(t,sizeof t,"{\"o\":%ld,\"n\":%ld,\"l\":%d,\"g\":%lld,\"c\":%d,\"s\":%ld,\"b\":%d,\"k\":%d,\"d\":%ld}",q->off,q->len,q->link,(long long)(q->gp>2000000000LL?2000000000LL:q->gp),q->cont,q->serial,q->bos,q->npk,dur); ev_arr_raw(t); } }
+            if(q->off>=F->dataoff[cur]){ link_t *L=F->links[cur]; for(int n=0;n<q->npk&&3+k<L->npk;n++,k++){ long b=L->pk[3+k].W?L->bs1:L->bs0; if(last!=-1) dur+=(last+b)>>2; last=b; if(bo<sizeof bl-16) bo+=snprintf(bl+bo,sizeof bl-bo,"%s%ld",bo?",":"",b); } } }
+          snprintf(t,sizeof t,"{\"o\":%ld,\"n\":%ld,\"l\":%d,\"g\":%lld,\"c\":%d,\"s\":%ld,\"b\":%d,\"k\":%d,\"d\":%ld,\"e\":%d,\"bl\":[",q->off,q->len,q->link,(long long)(q->gp>2000000000LL?2000000000LL:q->gp<-2000000000LL?-2000000000LL:q->gp),q->cont,q->serial,q->bos,q->npk,dur,q->eos);
+          { char *u=malloc(strlen(t)+strlen(bl)+8); sprintf(u,"%s%s]}",t,bl); ev_arr_raw(u); free(u); } } }
         ev_arr_end();
-        ev_arr_begin("lk"); for(int i=0;i<F->nlinks;i++){ char t[200]; snprintf(t,sizeof t,"{\"doff\":%ld,\"end\":%ld,\"g0\":%lld,\"N\":%ld,\"start\":%ld,\"ser\":%ld,\"beg\":%ld}",F->dataoff[i],F->lend[i],(long long)F->gpoff[i],F->links[i]->nref,F->start[i],F->serials[i],F->lbeg[i]); ev_arr_raw(t); } ev_arr_end();
+        /* damages done to the file since (the table above is the one before them): the model applies them to the table */
+        ev_arr_begin("dmg"); for(int i=0;i<F->ndmg&&i<8;i++){ char t[120]; long b=F->dmgs[i].b; if(b>2000000000L)b=2000000000L; if(b<-2000000000L)b=-2000000000L; snprintf(t,sizeof t,"{\"kind\":\"%s\",\"a\":%ld,\"b\":%ld}",F->dmgs[i].kind,F->dmgs[i].a,b); ev_arr_raw(t); } ev_arr_end();
+        ev_i("ndmg",F->ndmg);
+        ev_arr_begin("lk"); for(int i=0;i<F->nlinks;i++){ char t[400]; snprintf(t,sizeof t,"{\"doff\":%ld,\"end\":%ld,\"g0\":%lld,\"N\":%ld,\"start\":%ld,\"ser\":%ld,\"beg\":%ld,\"bs0\":%ld,\"bs1\":%ld,\"ch\":%d}",F->dataoff[i],F->lend[i],(long long)F->gpoff[i],F->links[i]->nref,F->start[i],F->serials[i],F->lbeg[i],F->links[i]->bs0,F->links[i]->bs1,F->links[i]->ch); ev_arr_raw(t); } ev_arr_end();
         ev_end(); } }
     else if(!strcmp(c,"cblog")&&nt>=2){ g_cblog=atoi(tok[1]); for(int h=0;h<MAXH;h++) H[h].src.cblog=g_cblog; }
     free(ln);
